@@ -16,8 +16,13 @@ executes requests on the real code is exploration (see checks/C14.py), not proof
 -/
 namespace Discret.Adm
 
-/-- the theorems stated for `Defects.none` are about the code as implemented (after e10cc1c and 8e31124) -/
-theorem C14_code_is_intended : Defects.asImplemented = Defects.none := rfl
+/-- The admission and key-import theorems stated for `Defects.none` are about the code as implemented
+    (after e10cc1c and 8e31124): the two steps only look at these two switches. -/
+theorem C14_code_is_intended :
+    Defects.asImplemented.jsonNullPanics = false ∧ Defects.asImplemented.emptyKeyPanics = false ∧
+    (∀ ft pv, bind Defects.asImplemented ft pv = bind Defects.none ft pv) ∧
+    (∀ first len, importVerifyingKey Defects.asImplemented first len = importVerifyingKey Defects.none first len) :=
+  ⟨rfl, rfl, fun _ _ => rfl, fun _ _ => rfl⟩
 
 /-! ### (1) the admission matrix -/
 
@@ -97,6 +102,23 @@ theorem C14_pool_liveness (panics : Bool) (threads k : Nat) :
   unfold poolAlive
   cases panics <;> simp <;> omega
 
+/-! ### dates taken from a peer's request -/
+
+/-- **C14 (day bounds are total), intended behaviour** -/
+theorem C14_day_bounds_total (t : Int) : dayBoundsPanics Defects.none t = false := by
+  simp [dayBoundsPanics, Defects.none]
+
+/-- **C14_breaks_dateRangePanics** (date_utils.rs:16-30, found by the serve engine, confirmed:
+    corpus/C14/date_out_of_range.ops). `i64::MAX`, `i64::MIN`, the last representable instant (its next day
+    overflows) and one past each end of chrono's range panic the reader thread that computes the day bounds. -/
+theorem C14_breaks_dateRangePanics :
+    ∀ t ∈ [(9223372036854775807 : Int), -9223372036854775808, 8210266876799999, 8210266876800000, -8334601228800001],
+      dayBoundsPanics Defects.asImplemented t = true := by decide
+
+/-- **C14_date_partial** (code as implemented): a date inside chrono's range whose next day is inside too never panics -/
+theorem C14_date_partial (t : Int) (h : dateInRange t = true) : dayBoundsPanics Defects.asImplemented t = false := by
+  simp [dayBoundsPanics, h]
+
 /-! ### (3) identifiers: the grammar against the storage engine -/
 
 open Discret.Peg in
@@ -120,14 +142,24 @@ theorem C14_reserved_words_refused : ∀ w ∈ reservedAlias, bareAliasOk w = fa
 
 /-! ### (4) frame lengths read from the wire (T5) -/
 
+/-- **C14 (first frame is bounded), intended behaviour**: a frame longer than `max_buffer_size` is refused -/
+theorem C14_first_frame_bounded (len maxBuffer : Nat) (h : maxBuffer < len) :
+    firstFrameAccepted Defects.none len maxBuffer = false := by
+  simp [firstFrameAccepted, Defects.none]; omega
+
+/-- **C14_breaks_unboundedFirstFrame** (endpoint.rs:353-355, candidate #29, confirmed on the real code with a
+    QUIC client on localhost: corpus/C14/first_frame.ops): the acceptor keeps a connection whose first frame
+    announces 1 GiB with a 1 MiB buffer limit (and the process grows by that much before any authentication). -/
+theorem C14_breaks_unboundedFirstFrame : firstFrameAccepted Defects.asImplemented 0x40000000 0x100000 = true := by decide
+
 /-- **C14_frames_partial.** Every `read_u32()` of endpoint.rs is followed by a bound check before the
     length sizes an allocation or a slice — except the first frame of an accepted connection. -/
 theorem C14_frames_partial :
     ∀ s ∈ Gen.frameSites, s.bounded = true ∨ (s.stream = "event_receiv" ∧ s.use = "vec![0;len]") := by decide
 
-/-- **C14_breaks_unboundedConnectionInfoFrame** (endpoint.rs:353-355, candidate #29, from reading and T5
-    only — not replayed): the one unbounded site; a peer that completes the TLS handshake makes the
-    acceptor allocate up to 4 GiB before any authentication. -/
+/-- **C14_breaks_unboundedConnectionInfoFrame** (the same site seen by the translator T5): the one unbounded
+    `read_u32()` of endpoint.rs; the server side of the TLS handshake asks for no client certificate, so any
+    client makes the acceptor allocate up to 4 GiB before any authentication. -/
 theorem C14_breaks_unboundedConnectionInfoFrame :
     (Gen.frameSites.filter fun s => !s.bounded).map (fun s => (s.stream, s.use)) = [("event_receiv", "vec![0;len]")] ∧
     Gen.frameSites.length = 5 := by decide
@@ -142,5 +174,8 @@ example : importVerifyingKey Defects.none (some 1) 33 = .reachesDalek ∧
     importVerifyingKey Defects.none none 0 = .errKeyLength := by decide
 
 example : poolAlive true 4 3 = true ∧ poolAlive true 4 4 = false := by decide
+
+example : dateInRange 0 = true ∧ dateInRange 1700000000000 = true ∧ dateInRange (-8334601228800000) = true ∧
+    dateInRange (8210266876799999 - 86400000) = true := by decide
 
 end Discret.Adm
